@@ -462,7 +462,7 @@ func quoteStr(s string, q rune) string {
 		case r == '\r':
 			b.WriteString(`\r`)
 		case r == 0:
-			b.WriteString(`\0`)
+			b.WriteString(`\x00`)
 		default:
 			b.WriteRune(r)
 		}
